@@ -12,7 +12,7 @@ class PROP(Prop):
     profiles = ["debug"]
     rule = ("for a spread of request shapes, TCP and RTU: reply truncated at EVERY byte offset followed by end of stream or a read error of "
             "each tested kind; write fault (error, zero-length write) at EVERY offset of the request frame for write granularities "
-            "{1,2,3,7,all} and pending patterns; flush errors; fault-free piecewise writes; each under ambient errno states "
+            "{1,2,3,7,all} and pending patterns; the same context used again after a write fault at every offset (lifetime stream = frame after frame); flush errors; fault-free piecewise writes; each under ambient errno states "
             "{untouched,0,2} (quick; +11,104,103,32,107,110 thorough and always for the orderly end of stream) forced before every poll.  non-trivial = a fault or a piecewise write was actually injected")
 
     def shapes(self, rng, tier):
@@ -64,6 +64,19 @@ class PROP(Prop):
                                 W = ",".join(ev + [fault])
                                 cs.append(Case(cligen.cli_line(proto, slave, [cligen.call_op(req, W=W, R=mb.rscript([reply]))]),
                                                {"k": "wfault", "off": k, "frame": frame.hex(), "proto": proto, "fault": fault}))
+                    # the same context used again after the write fault: what reaches the transport over the client's lifetime is
+                    # still frame after frame, each once and in order (the unsent rest of the first frame precedes the second frame)
+                    if g in (1, 1000):
+                        for k in range(0, len(frame)):
+                            nacc = k // g
+                            rem = k - nacc * g
+                            pre = ["a%d" % g] * nacc + (["a%d" % rem] if rem else [])
+                            fault = rng.choice(["z", "e:ConnectionReset", "e:Other", "e:TimedOut"])
+                            req2 = ("RHR", rng.randrange(65536), 1)
+                            frame2 = cligen.frame(proto, 1, slave, mb.spec_req_pdu(req2))
+                            reply2 = cligen.frame(proto, 1, slave, mb.spec_rsp_pdu(("RHR", [rng.randrange(65536)])))
+                            cs.append(Case(cligen.cli_line(proto, slave, [cligen.call_op(req, W=",".join(pre + [fault]), R="-"), cligen.call_op(req2, R=mb.rscript([reply2]))]),
+                                           {"k": "wfault_next", "off": k, "frame": frame.hex(), "frame2": frame2.hex(), "proto": proto, "fault": fault}))
                     # fault-free piecewise writes with pending patterns
                     for pat in range(3):
                         n = (len(frame) + g - 1) // g
@@ -96,6 +109,18 @@ class PROP(Prop):
 
     def oracle(self, c):
         m = c.meta
+        if m["k"] == "wfault_next":
+            rs = cligen.split_results(c.impl)
+            if len(rs) != 2 or "PANIC" in (c.impl or ""):
+                return "panic / result count: %s" % (c.impl or "")[:80]
+            (r1, w1), (r2, w2) = cligen.res_and_w(rs[0]), cligen.res_and_w(rs[1])
+            if not r1.startswith("T:"):
+                return "write fault %s at offset %d: call returned %s" % (m["fault"], m["off"], r1[:60])
+            want = bytes.fromhex(m["frame"]) + bytes.fromhex(m["frame2"])
+            got = w1 + w2
+            if got != want[:len(got)] or (r2.startswith("OK:") and got != want):
+                return "after a write fault at offset %d the transport received %s over the client's lifetime; the frames are %s" % (m["off"], got.hex()[:80], want.hex()[:80])
+            return None
         res, w = cligen.res_and_w(c.impl or "")
         frame = bytes.fromhex(m["frame"])
         if "PANIC" in res or "CRASH" in res or "NORESULT" in res:
